@@ -55,6 +55,7 @@ def gen_blocks(budget, depth, ctx):
 def gen_items(budget, depth, ctx):
     loops, targets = ctx
     yield ("D",), 1
+    yield ("J",), 1
     yield ("P",), 1
     # exits
     inner_break_target = next((t for t in reversed(targets) if t[0] == "loop" or t[1]), None)
@@ -106,7 +107,7 @@ def uses_label(items, label):
 def interesting(items):
     """a skeleton needs at least one defer to say anything about defers"""
     for it in items:
-        if it[0] == "D":
+        if it[0] in ("D", "J"):
             return True
         if it[0] in ("B", "W") and interesting(it[2]):
             return True
@@ -134,8 +135,13 @@ class Printer:
                 ch = chr(ord("A") + self.n_defer)
                 self.n_defer += 1
                 self.lines.append(f"{pad}defer putchar('{ch}');")
+            elif k == "J":
+                # a defer whose expression contains a jump of its own (a labelled block that is left by `break`)
+                ch = chr(ord("A") + self.n_defer)
+                self.n_defer += 1
+                self.lines.append(f"{pad}defer {{ putchar('{ch}'); `dj{self.n_defer}: {{ if {counter} < 99 {{ break `dj{self.n_defer}; }} putchar('!'); }} putchar('{ch.lower()}'); }};")
             elif k == "P":
-                ch = chr(ord("a") + self.n_print)
+                ch = chr(ord("a") + 13 + self.n_print)
                 self.n_print += 1
                 self.lines.append(f"{pad}putchar('{ch}');")
             elif k == "B":
@@ -225,8 +231,12 @@ class Interp:
             if k == "D":
                 res.append(("D", chr(ord("A") + self.n_defer)))
                 self.n_defer += 1
+            elif k == "J":
+                ch = chr(ord("A") + self.n_defer)
+                res.append(("D", ch + ch.lower()))
+                self.n_defer += 1
             elif k == "P":
-                res.append(("P", chr(ord("a") + self.n_print)))
+                res.append(("P", chr(ord("a") + 13 + self.n_print)))
                 self.n_print += 1
             elif k in ("B", "W"):
                 res.append((k, it[1], self.number(it[2])))
@@ -349,7 +359,7 @@ def encode(items):
     out = []
     for it in items:
         k = it[0]
-        if k in ("D", "P"):
+        if k in ("D", "P", "J"):
             out.append(k)
         elif k == "B":
             out.append(("`" + it[1] + ":" if it[1] else "") + "{" + encode(it[2]) + "}")
@@ -422,7 +432,7 @@ def run(tier, seed):
                 "the printed character sequence must equal the defer-stack interpreter's",
         "bounds_completed": {"max_items": budget, "max_nesting_depth": depth,
                              "function_forms": list(FORMS),
-                             "constructs": ["defer", "print", "block", "labelled block", "while", "labelled while", "loop", "if",
+                             "constructs": ["defer", "defer whose expression contains a jump", "print", "block", "labelled block", "while", "labelled while", "loop", "if",
                                             "break", "break `l", "continue", "continue `l", "return", ".try"]},
         "distinct_outcomes": len(outcomes),
         "compilations": runner.compiles,
